@@ -379,7 +379,12 @@ def r_escape(ctx) -> RuleResult:
                 if not ok:
                     res.fail(Finding("R-ESCAPE", fi.module.rel, fi.qualname, norm(n), f"raises something other than {exc.name}", line=n.lineno))
             if isinstance(n, ast.Assert):
-                asserts.append((fi, n))
+                from ..sizedom import implied_by_guard
+                why_ = implied_by_guard(fi.node, n)
+                if why_:
+                    res.inst(fi.fq, short(n, 70), "ok", detail=why_)
+                else:
+                    asserts.append((fi, n))
             if isinstance(n, ast.Subscript) and isinstance(n.ctx, ast.Load) and isinstance(n.value, ast.Name):
                 tbl = n.value.id
                 if tbl == "ELEMENT_ATTRS":
